@@ -57,6 +57,31 @@ def _judge(ctx, work, recs, by_id):
                           {"clause": cl, "at": at, "scenario": {"c": r["c"]}, "cells": r["ev"][:60]})
 
 
+BROADCAST = {"quick": dict(Forms={"scalar", "list", "tuple", "nested"}, KSet={1, 2, 3}, RSet={0, 1, 4}, CSet={1, 3}, MaxOps=2),
+             "thorough": dict(Forms={"scalar", "list", "tuple", "nested"}, KSet={1, 2, 3}, RSet={0, 1, 2, 4, 5}, CSet={1, 2, 3, 4}, MaxOps=2)}
+BC_INV = ["TypeOK", "ToListIsIloc", "Recycles", "UpdateIsLocal", "UpdateExpands"]
+
+
+def _broadcast_family(ctx, work, tier):
+    """spec/Broadcast.tla: the recycling algebra of BroadcastValue.  The laws are model-checked; every behaviour of the
+    specification (shape x dimension x up to two calls) is then stepped through the real object with result and stored
+    value compared after each call (spec -> code).  A difference is model drift: the property speaks about rendered
+    cells, which CellTrace judges; this family localises a failure in the mechanism underneath."""
+    import broadcast
+    consts = BROADCAST[tier]
+    res = family.model_check(ctx, work, "Broadcast", consts, BC_INV, [], "broadcast algebra")
+    if res.violated:
+        raise MachineryError("Broadcast model violates %s\n%s" % (res.violated, res.counterexample[:1200]))
+    got = family.generate(ctx, work, "Broadcast", consts, "broadcast")
+    items = [{"id": i, "sc": g["sc"], "ops": g["ops"], "hist": g["hist"]} for i, g in enumerate(got)]
+    recs = pmap(broadcast.run_one, items, chunk=256)
+    bad = [r for r in recs if r["diff"]]
+    for r in bad[:20]:
+        ctx.model_drift("BroadcastValue %s calls %s: step %d: %s" % (json.dumps(r["sc"], sort_keys=True), json.dumps(r["ops"]), r["diff"]["at"], r["diff"]["what"]))
+    ctx.extra["broadcast_family"] = {"behaviours_replayed": len(recs), "drift": len(bad),
+                                     "forms": sorted(consts["Forms"]), "laws_model_checked": BC_INV[1:]}
+
+
 def run(pid, tier, seed, replay=None):
     ctx = Ctx(pid, tier, seed)
     work = family.Work()
@@ -105,6 +130,7 @@ def run(pid, tier, seed, replay=None):
                 nd += 1
                 ctx.model_drift("C09 scenario %s: %s" % (json.dumps(c, sort_keys=True), r["drift"]))
         ctx.extra["conformance"] = {"compared_with_model_prediction": len(recs), "drift": nd}
+        _broadcast_family(ctx, work, tier)
         ctx.extra["attributes_covered"] = sorted({r["c"]["attr"] for r in recs})
         if len(ctx.extra["attributes_covered"]) < len(ALL_ATTRS):
             raise MachineryError("vacuity guard: not every attribute was exercised")
